@@ -160,7 +160,31 @@ def run(prog, rep, tier):
         if len(arrays) != 1:
             raise Inconclusive("ANM.sample: loop carries %s" % li["changed"], li["node"])
         main = arrays[0]
-        leaked = [k for k in li["changed"] if k != main and any(x == ("mu", lid, k) for x in walk(li["next"][main]))]
+        i_ = ("elem", li["iter"])
+
+        def outside_own_slot(t, mu_k):
+            # occurrences of the carried variable other than `var[i]` (the slot of the variable being generated)
+            if t == mu_k:
+                return True
+            if not isinstance(t, tuple):
+                return False
+            if len(t) == 3 and t[0] == "sub" and t[2] == i_:
+                # var[i], also after per-slot updates `var[i] = ...` on some paths: the slot of the variable being generated
+                def slots(b):
+                    if b == mu_k:
+                        return []
+                    if isinstance(b, tuple) and len(b) == 5 and b[0] == "store" and b[2] == i_:
+                        r = slots(b[1])
+                        return None if r is None else r + [b[3]]
+                    if isinstance(b, tuple) and len(b) == 4 and b[0] == "phi":
+                        r1, r2 = slots(b[2]), slots(b[3])
+                        return None if r1 is None or r2 is None else r1 + r2 + [b[1]]
+                    return None
+                vals = slots(t[1])
+                if vals is not None:
+                    return any(outside_own_slot(v, mu_k) for v in vals)
+            return any(outside_own_slot(x, mu_k) for x in t)
+        leaked = [k for k in li["changed"] if k != main and outside_own_slot(li["next"][main], ("mu", lid, k))]
         if leaked:
             rep.bad("CASES.carry", fwhere(f, li["node"]), "the column stored for variable i can contain `%s` as it was left by the iteration of another variable "
                     "(it is not recomputed on every path of the loop body): one draw ends up in two variables" % leaked[0])
